@@ -274,7 +274,7 @@ static void quiesce(void){
     U("U_YieldRet", 1, 0L);
     /* ... YieldBeg, QPop(q,0), YieldEnd, U_YieldRet: the local queue was empty, nothing was switched to */
     if (vrt_peek(3, &nm, &la) && !strcmp(nm, "QPop") && la == 0 && vrt_all_others_idle()) break;
-    if (++guard > 100000) break;
+    if (++guard > 3000) vrt_giveup("HANG");      /* the system never becomes quiescent */
   }
 }
 
